@@ -38,7 +38,7 @@ def shape_key(prop, sc, obs):
             ("det" if t["det"] else t["beh"] + str(t["code"])) + (f"/exp{t['exp']}" if t["exp"] != -1 else "")
             + ("/slow" if t["dur"] else "") + (f"/t{t['t']}" if t["t"] != -1 else "")
             + (":" + t["expect"] if t["expect"] != "match" else "") for t in A) + "]"
-            + (f"T{d['tfm']}" if d["tfm"] != -1 else "") + (f"deft{d['tdef']}" if d.get("tdef", -1) != -1 else "") + (f"skip{d['skipdef']}" if d["skipdef"] != -1 else "")
+            + (f"T{d['tfm']}" if d["tfm"] != -1 else "") + (f"deft{d['tdef']}" if d.get("tdef", -1) != -1 else "") + (f"skip{d['skipdef']}" if d["skipdef"] != -1 else "") + (f"defstream={d['sdef']}" if d.get("sdef", "unset") != "unset" else "")
             + (":" + d["fault"] if d["fault"] != "no" else ""))
     return f"{'+'.join(docs)}" + (f" cliT{sc['tcli']}" if sc["tcli"] != -1 else "") + (" noshell" if sc["noshell"] else "") \
         + f" => {obs['res']} exit={obs['exit']}"
@@ -64,6 +64,7 @@ def run(prop, tier, replay=None):
             scn.setdefault(fld, dflt)
         for d_ in scn["docs"]:
             d_.setdefault("tdef", -1)
+            d_.setdefault("sdef", "unset")
         chosen = [{"sc": scn, "predict": None}]
         states = trans = 0
     else:
@@ -101,7 +102,7 @@ def run(prop, tier, replay=None):
                             return True
                 return False
             small = [v for v in allsc if sum(len(d["tests"]) for d in v["sc"]["docs"]) <= 1 or (prop in ("C20", "C05") and rare(v)) or detcut(v) or v["sc"].get("compat") or v["sc"].get("rel")
-                     or (prop == "C05" and (v["sc"]["pre"] or v["sc"]["app"]))
+                     or (prop == "C05" and (v["sc"]["pre"] or v["sc"]["app"] or any(d.get("sdef", "unset") != "unset" for d in v["sc"]["docs"])))
                      or (prop == "C15" and any(t["beh"] == "signal" for d in v["sc"]["docs"] for t in d["tests"]))
                      or any(t["beh"] == "exitscript" and t["code"] == 3 for d in v["sc"]["docs"] for t in d["tests"])
                      or (v["sc"].get("dirarg") and len(v["sc"]["docs"]) == 3 and len(v["sc"]["docs"][0]["tests"]) == 1 and v["sc"]["docs"][0]["fmt"] == "md")]
